@@ -348,7 +348,7 @@ fn case_strategy(role: Role) -> BoxedStrategy<Case> {
 
 pub fn run(ctx: &Ctx, started: Instant) -> i32 {
     let mut stats = exhaustive(ctx);
-    let per_shard = ctx.tier.pick(1_500u32, 60_000);
+    let per_shard = ctx.tier.pick(4_000u32, 100_000);
     let rnd = par_shards(WORKERS, |shard| {
         let mut st = Stats::default();
         run_proptest_bed("C16", ctx.sub_seed("rand", shard), per_shard, &case_strategy(Role::ALL[shard % 4]), &mut st, |c| json!({"case": c, "names": names(c, &templates(c.role.is_v5()))}), run_case);
